@@ -1,1 +1,17 @@
-// placeholder
+//! `vdesign` — generator of well-typed Veryl designs, IEEE 1800 reference
+//! evaluator over the same IR, stimulus generation and a driver for the
+//! simulator under test.  See README.md.
+
+pub mod eval;
+pub mod dgen;
+pub mod ir;
+pub mod print;
+pub mod sim;
+pub mod stim;
+
+pub use eval::{RefSim, Val, ty_of};
+pub use dgen::{ExprInfo, shape, KNOWN_FINDING_SHAPES, GenCfg, Generated, constify, gen_design, gen_expr_design, gen_value, gen_width, width_class};
+pub use ir::*;
+pub use print::print_design;
+pub use sim::{Analyzed, PortSpec, Rejected, Sample, StimStep, Stimulus, Trace, config_label, engine_configs, run_trace};
+pub use stim::{RefTrace, gen_stimulus, port_specs, reference_trace};
